@@ -39,7 +39,7 @@ def run_ctl(case):
     p = case["prm"]
     params = Params(newton_tol=p["newton_tol"], lamb_init=p["lamb_init"], lamb_min=p["lamb_min"], lamb_red=p["lamb_red"],
                     lamb_inc=p["lamb_inc"], theta_max=p["theta_max"], step_control_type=StepControlType[KINDS[case["kind"]]],
-                    time_limit=case["time_limit"],
+                    time_limit=case["time_limit"], iteration_limit=case.get("iter_limit"),
                     precision=Precision.Single if case.get("single") else Precision.Double)
 
     class StubFunc:
@@ -113,6 +113,14 @@ class StepCtl(Unit):
                     diff = 0.0 if r.random() < 0.1 else 2.0 ** r.randint(-4, 4)   # power of two: theta exact
                 stream.append({"id": i + 1, "diff": diff, "res": res})
                 cur = res
+            if k % 16 == 8:
+                # the exact controller's ten inner iterations all contract by exactly one half and never reach the
+                # tolerance: not converged, so not accepted
+                prm["newton_tol"] = tol = 2.0 ** -40
+                cur = res0
+                for s_ in stream:
+                    cur = cur * 0.5
+                    s_["res"] = cur
             evalbad = [i + 1 for i in range(L) if r.random() < 0.1]
             # clock: the timer start, then one read per deadline test; the deadline may pass at some test
             tl = float("inf") if r.random() < 0.5 else float(r.randint(0, 6))
@@ -123,7 +131,7 @@ class StepCtl(Unit):
                 clock.append(t)
             cases.append({"kind": kind, "prm": prm, "lamb": lamb, "res0": res0, "pi": 2.0 ** r.randint(-2, 2), "stream": stream,
                           "evalbad": evalbad, "time_limit": tl, "clock": clock,
-                          "single": single})
+                          "single": single, "iter_limit": r.choice([None, None, 1, 2, 3, 5])})   # the outer budget is not the controller's
         return cases
 
     def impl(self, case):
